@@ -200,6 +200,7 @@ func rtStubs(m map[string]stubFn) {
 			e.sh.res.Covers[strName(a[0])]++
 			e.sh.res.mu.Unlock()
 		}
+		e.pathCovers = append(e.pathCovers, strName(a[0]))
 		return nil
 	}
 	m[RT+"Choose"] = func(e *Engine, fn *ssa.Function, a []Value) Value {
